@@ -499,6 +499,37 @@ def sc_large(cx, n):
     cx.lean_wf(r, [r.head()])
 
 
+def sc_rebase_later_file(cx):
+    """regression (fix 4fd233ae): a tracked file that only a later rewritten commit changes, while the
+    target branch shifted its lines — the earlier rewritten commits' notes must not mention it"""
+    r = cx.repo()
+    cx.write_lines(r, "a.txt", cx.lines("a", 8))
+    cx.write_lines(r, "b.txt", cx.lines("b", 8))
+    cx.commit(r, "base")
+    r.git("checkout", "-q", "-b", "feature")
+    cx.ai_edit(r, "a.txt", "s1", n=2)
+    cx.commit(r, "c1")
+    cur = cx.read_lines(r, "b.txt")
+    cx.write_lines(r, "b.txt", cur + cx.lines("ai-s1", 2))
+    r.ai_checkpoint("s1", ["b.txt"])
+    cx.op("ai append b.txt")
+    cx.commit(r, "c2")
+    cx.ai_edit(r, "a.txt", "s2", n=1)
+    cx.commit(r, "c3")
+    r.git("checkout", "-q", "main")
+    cx.write_lines(r, "b.txt", cx.lines("main-top", 1 + cx.index) + cx.read_lines(r, "b.txt"))
+    cx.commit(r, "m1")
+    r.git("checkout", "-q", "feature")
+    cx.git(r, "rebase", "main")
+    rc, out, _ = r.plain_git("log", "--reverse", "--format=%H", "main..HEAD")
+    new = out.split()
+    if len(new) == 3:
+        n1 = r.note(new[0])
+        if n1 and any(hs for f, hs in n1["files"].items() if f == "b.txt"):
+            cx.fails.append(("note:lists-file-untouched-by-commit", {"scenario": cx.name, "seed": cx.seed, "ops": cx.trail[-40:], "object": new[0]}))
+    cx.lean_wf(r, new)
+
+
 def sc_newline_name(cx):
     r = base_repo(cx, ["plain.txt"])
     cx.ai_edit(r, "nl\nname.txt", "s1")
@@ -523,6 +554,7 @@ SCENARIOS = {
     "delete-rename": sc_delete_rename,
     "git-refans-rebase": lambda cx: sc_git_refans(cx, "rebase"),
     "git-refans-cherry-pick": lambda cx: sc_git_refans(cx, "cherry-pick"),
+    "rebase-later-file": sc_rebase_later_file,
     "large-600": lambda cx: sc_large(cx, 600),
     "newline-name": sc_newline_name,
 }
